@@ -5,14 +5,18 @@ namespace WD.Pipe
 
 /-- the common shape: the kernel leaves its watches alone, queues records that do not touch the maps
     (none of them a move half), and no directory of the tree changes -/
+structure SimpleOp (s : Sys) (op : Op) (fs1 : FS) (recs : List NRec) (path : NRec → P) : Prop where
+  hk : kernelOp s.fs s.k op = (fs1, s.k, recs)
+  hr : ∀ r ∈ recs, simpleFlag true r.flag r.isDir = true ∧ lookupW s.lib.pathForWd r.wd = some (path r)
+  hwf : fs1.WF
+  hdirs : ∀ e, inTreeDir e = true → (e ∈ fs1.ents ↔ e ∈ s.fs.ents)
+  hnostop : ∀ r ∈ recs, (emit fs1 true s.full (.one (r.toLEv (path r)))).2 = false
+  hev : recs.flatMap (fun r => (emit fs1 true s.full (.one (r.toLEv (path r)))).1) = (contract s.fs true s.full op).1
+  hst : (contract s.fs true s.full op).2 = false
+
 theorem step_simple (s : Sys) (op : Op) (inv : InvRec s.fs s.k s.lib) (hs : s.stopped = false) (hc : s.crashed = false)
-    (fs1 : FS) (recs : List NRec) (path : NRec → P)
-    (hk : kernelOp s.fs s.k op = (fs1, s.k, recs))
-    (hr : ∀ r ∈ recs, simpleFlag true r.flag r.isDir = true ∧ lookupW s.lib.pathForWd r.wd = some (path r))
-    (hwf : fs1.WF) (hdirs : ∀ e, inTreeDir e = true → (e ∈ fs1.ents ↔ e ∈ s.fs.ents))
-    (hnostop : ∀ r ∈ recs, (emit fs1 true s.full (.one (r.toLEv (path r)))).2 = false)
-    (hev : recs.flatMap (fun r => (emit fs1 true s.full (.one (r.toLEv (path r)))).1) = (contract s.fs true s.full op).1)
-    (hst : (contract s.fs true s.full op).2 = false) : StepRec s op := by
+    (fs1 : FS) (recs : List NRec) (path : NRec → P) (h : SimpleOp s op fs1 recs path) : StepRec s op := by
+  obtain ⟨hk, hr, hwf, hdirs, hnostop, hev, hst⟩ := h
   have hl : libBatch fs1 s.k s.lib recs = some (s.k, s.lib, recs.map (fun r => r.toLEv (path r))) :=
     libBatch_simple fs1 s.k s.lib recs path (by rw [inv.isRec]; exact hr)
   have hflags : ∀ e ∈ recs.map (fun r => r.toLEv (path r)), e.flag ≠ .movedTo ∧ e.flag ≠ .ignored := by
@@ -53,8 +57,8 @@ theorem validOp_create {fs : FS} {p : P} (h : validOp fs (.create p) = true) :
     2 ≤ p.length ∧ fs.exists p = false ∧ fs.isDir (parentOf p) = true := by
   have := h; simp [validOp] at this; exact ⟨this.1.1, this.1.2, this.2⟩
 
-theorem step_create (s : Sys) (p : P) (inv : InvRec s.fs s.k s.lib) (hs : s.stopped = false) (hc : s.crashed = false)
-    (hv : validOp s.fs (.create p) = true) : StepRec s (.create p) := by
+theorem simple_create (s : Sys) (p : P) (inv : InvRec s.fs s.k s.lib)
+    (hv : validOp s.fs (.create p) = true) : ∃ fs1 recs path, SimpleOp s (.create p) fs1 recs path := by
   obtain ⟨hp, hne, hpar⟩ := validOp_create hv
   have hpb := snoc_parent_base (ne_nil_of_two_le hp)
   have hdirs : ∀ e, inTreeDir e = true → (e ∈ (s.fs.add p false).ents ↔ e ∈ s.fs.ents) := by
@@ -65,9 +69,7 @@ theorem step_create (s : Sys) (p : P) (inv : InvRec s.fs s.k s.lib) (hs : s.stop
       · subst h; simp [inTreeDir] at he
     · exact Or.inl
   rcases inv.parent_recs p with ⟨hw, wd, h1, _, hrec⟩ | ⟨hw, hrec⟩
-  · apply step_simple s _ inv hs hc (s.fs.add p false)
-      [⟨wd, .create, false, 0, some (baseName p)⟩, ⟨wd, .open, false, 0, some (baseName p)⟩, ⟨wd, .closeWrite, false, 0, some (baseName p)⟩]
-      (fun _ => parentOf p)
+  · refine ⟨(s.fs.add p false), [⟨wd, .create, false, 0, some (baseName p)⟩, ⟨wd, .open, false, 0, some (baseName p)⟩, ⟨wd, .closeWrite, false, 0, some (baseName p)⟩], (fun _ => parentOf p), ⟨?_, ?_, ?_, ?_, ?_, ?_, ?_⟩⟩
     · simp [kernelOp, hrec, FS.add]
     · intro r hr; simp at hr; rcases hr with rfl | rfl | rfl <;> simp [simpleFlag, h1]
     · exact inv.wf.add hp hne hpar false
@@ -75,7 +77,7 @@ theorem step_create (s : Sys) (p : P) (inv : InvRec s.fs s.k s.lib) (hs : s.stop
     · intro r hr; simp at hr; rcases hr with rfl | rfl | rfl <;> simp [emit, NRec.toLEv]
     · simp [contract, hw, emit, NRec.toLEv, NRec.src, hpb, dirMod, mkEv]
     · simp [contract]
-  · apply step_simple s _ inv hs hc (s.fs.add p false) [] (fun _ => parentOf p)
+  · refine ⟨(s.fs.add p false), [], (fun _ => parentOf p), ⟨?_, ?_, ?_, ?_, ?_, ?_, ?_⟩⟩
     · simp [kernelOp, hrec, FS.add]
     · simp
     · exact inv.wf.add hp hne hpar false
@@ -88,16 +90,14 @@ end WD.Pipe
 
 namespace WD.Pipe
 
-theorem step_write (s : Sys) (p : P) (inv : InvRec s.fs s.k s.lib) (hs : s.stopped = false) (hc : s.crashed = false)
-    (hv : validOp s.fs (.write p) = true) : StepRec s (.write p) := by
+theorem simple_write (s : Sys) (p : P) (inv : InvRec s.fs s.k s.lib)
+    (hv : validOp s.fs (.write p) = true) : ∃ fs1 recs path, SimpleOp s (.write p) fs1 recs path := by
   have hv' : s.fs.isFile p = true := by simpa [validOp] using hv
   obtain ⟨f, hf, _⟩ := FS.isFile_iff.mp hv'
   have hfm := FS.find?_some hf
   have hpb := snoc_parent_base (hfm.2 ▸ inv.wf.path_ne_nil hfm.1)
   rcases inv.parent_recs p with ⟨hw, wd, h1, _, hrec⟩ | ⟨hw, hrec⟩
-  · apply step_simple s _ inv hs hc s.fs
-      [⟨wd, .open, false, 0, some (baseName p)⟩, ⟨wd, .modify, false, 0, some (baseName p)⟩, ⟨wd, .closeWrite, false, 0, some (baseName p)⟩]
-      (fun _ => parentOf p)
+  · refine ⟨s.fs, [⟨wd, .open, false, 0, some (baseName p)⟩, ⟨wd, .modify, false, 0, some (baseName p)⟩, ⟨wd, .closeWrite, false, 0, some (baseName p)⟩], (fun _ => parentOf p), ⟨?_, ?_, ?_, ?_, ?_, ?_, ?_⟩⟩
     · simp [kernelOp, hrec]
     · intro r hr; simp at hr; rcases hr with rfl | rfl | rfl <;> simp [simpleFlag, h1]
     · exact inv.wf
@@ -105,7 +105,7 @@ theorem step_write (s : Sys) (p : P) (inv : InvRec s.fs s.k s.lib) (hs : s.stopp
     · intro r hr; simp at hr; rcases hr with rfl | rfl | rfl <;> simp [emit, NRec.toLEv]
     · simp [contract, hw, emit, NRec.toLEv, NRec.src, hpb, dirMod, mkEv]
     · simp [contract]
-  · apply step_simple s _ inv hs hc s.fs [] (fun _ => parentOf p)
+  · refine ⟨s.fs, [], (fun _ => parentOf p), ⟨?_, ?_, ?_, ?_, ?_, ?_, ?_⟩⟩
     · simp [kernelOp, hrec]
     · simp
     · exact inv.wf
@@ -114,8 +114,8 @@ theorem step_write (s : Sys) (p : P) (inv : InvRec s.fs s.k s.lib) (hs : s.stopp
     · simp [contract, hw]
     · simp [contract]
 
-theorem step_unlink (s : Sys) (p : P) (inv : InvRec s.fs s.k s.lib) (hs : s.stopped = false) (hc : s.crashed = false)
-    (hv : validOp s.fs (.unlink p) = true) : StepRec s (.unlink p) := by
+theorem simple_unlink (s : Sys) (p : P) (inv : InvRec s.fs s.k s.lib)
+    (hv : validOp s.fs (.unlink p) = true) : ∃ fs1 recs path, SimpleOp s (.unlink p) fs1 recs path := by
   have hv' : s.fs.isFile p = true := by simpa [validOp] using hv
   obtain ⟨f, hf, hfile⟩ := FS.isFile_iff.mp hv'
   have hfm := FS.find?_some hf
@@ -138,7 +138,7 @@ theorem step_unlink (s : Sys) (p : P) (inv : InvRec s.fs s.k s.lib) (hs : s.stop
       intro hp; have := inv.wf.path_inj h hfm.1 (hp.trans hfm.2.symm); subst this
       simp [inTreeDir, hfile] at he
   rcases inv.parent_recs p with ⟨hw, wd, h1, _, hrec⟩ | ⟨hw, hrec⟩
-  · apply step_simple s _ inv hs hc (s.fs.del p) [⟨wd, .delete, false, 0, some (baseName p)⟩] (fun _ => parentOf p)
+  · refine ⟨(s.fs.del p), [⟨wd, .delete, false, 0, some (baseName p)⟩], (fun _ => parentOf p), ⟨?_, ?_, ?_, ?_, ?_, ?_, ?_⟩⟩
     · simp [kernelOp, hf, removeEntry, hfile, hfm.2, hrec, FS.del]
     · intro r hr; simp at hr; subst hr; simp [simpleFlag, h1]
     · exact hwf
@@ -146,7 +146,7 @@ theorem step_unlink (s : Sys) (p : P) (inv : InvRec s.fs s.k s.lib) (hs : s.stop
     · intro r hr; simp at hr; subst hr; simp [emit, NRec.toLEv]
     · simp [contract, hw, hex, emit, NRec.toLEv, NRec.src, hpb, dirMod, mkEv, evDeleted]
     · simp [contract]
-  · apply step_simple s _ inv hs hc (s.fs.del p) [] (fun _ => parentOf p)
+  · refine ⟨(s.fs.del p), [], (fun _ => parentOf p), ⟨?_, ?_, ?_, ?_, ?_, ?_, ?_⟩⟩
     · simp [kernelOp, hf, removeEntry, hfile, hfm.2, hrec, FS.del]
     · simp
     · exact hwf
@@ -155,8 +155,8 @@ theorem step_unlink (s : Sys) (p : P) (inv : InvRec s.fs s.k s.lib) (hs : s.stop
     · simp [contract, hw]
     · simp [contract]
 
-theorem step_chmod (s : Sys) (p : P) (inv : InvRec s.fs s.k s.lib) (hs : s.stopped = false) (hc : s.crashed = false)
-    (hv : validOp s.fs (.chmod p) = true) : StepRec s (.chmod p) := by
+theorem simple_chmod (s : Sys) (p : P) (inv : InvRec s.fs s.k s.lib)
+    (hv : validOp s.fs (.chmod p) = true) : ∃ fs1 recs path, SimpleOp s (.chmod p) fs1 recs path := by
   have hv' : 2 ≤ p.length ∧ s.fs.exists p = true := by simpa [validOp] using hv
   obtain ⟨e, he⟩ := FS.exists_iff.mp hv'.2
   have hem := FS.find?_some he
@@ -185,8 +185,7 @@ theorem step_chmod (s : Sys) (p : P) (inv : InvRec s.fs s.k s.lib) (hs : s.stopp
         simp [hw, onSelf_none (inv.unwatched hem.1 ht)]
   have pathOf : NRec → P := fun r => match r.name with | none => p | some _ => parentOf p
   rcases inv.parent_recs p with ⟨hw, wd, h1, _, hrec⟩ | ⟨hw, hrec⟩ <;> rcases hself with ⟨hd, hws, wd', h1', hrs⟩ | ⟨hws, hrs⟩
-  · apply step_simple s _ inv hs hc s.fs [⟨wd', .attrib, true, 0, none⟩, ⟨wd, .attrib, e.isDir, 0, some (baseName p)⟩]
-      (fun r => match r.name with | none => p | some _ => parentOf p)
+  · refine ⟨s.fs, [⟨wd', .attrib, true, 0, none⟩, ⟨wd, .attrib, e.isDir, 0, some (baseName p)⟩], (fun r => match r.name with | none => p | some _ => parentOf p), ⟨?_, ?_, ?_, ?_, ?_, ?_, ?_⟩⟩
     · simp [kernelOp, he, hd, hrs, hrec]
     · intro r hr; simp at hr; rcases hr with rfl | rfl <;> simp [simpleFlag, h1, h1']
     · exact inv.wf
@@ -194,7 +193,7 @@ theorem step_chmod (s : Sys) (p : P) (inv : InvRec s.fs s.k s.lib) (hs : s.stopp
     · intro r hr; simp at hr; rcases hr with rfl | rfl <;> simp [emit, NRec.toLEv]
     · simp [contract, he, hw, hd, hws, emit, NRec.toLEv, NRec.src, hpb, mkEv]
     · simp [contract, he]
-  · apply step_simple s _ inv hs hc s.fs [⟨wd, .attrib, e.isDir, 0, some (baseName p)⟩] (fun _ => parentOf p)
+  · refine ⟨s.fs, [⟨wd, .attrib, e.isDir, 0, some (baseName p)⟩], (fun _ => parentOf p), ⟨?_, ?_, ?_, ?_, ?_, ?_, ?_⟩⟩
     · simp only [kernelOp, he, hrs, hrec, List.nil_append]
     · intro r hr; simp at hr; subst hr; simp [simpleFlag, h1]
     · exact inv.wf
@@ -203,7 +202,7 @@ theorem step_chmod (s : Sys) (p : P) (inv : InvRec s.fs s.k s.lib) (hs : s.stopp
     · simp only [contract, he, hw, hws]
       cases e.isDir <;> simp [emit, NRec.toLEv, NRec.src, hpb, mkEv]
     · simp [contract, he]
-  · apply step_simple s _ inv hs hc s.fs [⟨wd', .attrib, true, 0, none⟩] (fun _ => p)
+  · refine ⟨s.fs, [⟨wd', .attrib, true, 0, none⟩], (fun _ => p), ⟨?_, ?_, ?_, ?_, ?_, ?_, ?_⟩⟩
     · simp [kernelOp, he, hd, hrs, hrec]
     · intro r hr; simp at hr; subst hr; simp [simpleFlag, h1']
     · exact inv.wf
@@ -211,7 +210,7 @@ theorem step_chmod (s : Sys) (p : P) (inv : InvRec s.fs s.k s.lib) (hs : s.stopp
     · intro r hr; simp at hr; subst hr; simp [emit, NRec.toLEv]
     · simp [contract, he, hw, hd, hws, emit, NRec.toLEv, NRec.src, mkEv]
     · simp [contract, he]
-  · apply step_simple s _ inv hs hc s.fs [] (fun _ => p)
+  · refine ⟨s.fs, [], (fun _ => p), ⟨?_, ?_, ?_, ?_, ?_, ?_, ?_⟩⟩
     · simp only [kernelOp, he, hrs, hrec, List.nil_append]
     · simp
     · exact inv.wf
@@ -219,5 +218,21 @@ theorem step_chmod (s : Sys) (p : P) (inv : InvRec s.fs s.k s.lib) (hs : s.stopp
     · simp
     · simp [contract, he, hw, hws]
     · simp [contract, he]
+
+theorem step_create (s : Sys) (p : P) (inv : InvRec s.fs s.k s.lib) (hs : s.stopped = false) (hc : s.crashed = false)
+    (hv : validOp s.fs (.create p) = true) : StepRec s (.create p) := by
+  obtain ⟨fs1, recs, path, h⟩ := simple_create s p inv hv; exact step_simple s _ inv hs hc fs1 recs path h
+
+theorem step_write (s : Sys) (p : P) (inv : InvRec s.fs s.k s.lib) (hs : s.stopped = false) (hc : s.crashed = false)
+    (hv : validOp s.fs (.write p) = true) : StepRec s (.write p) := by
+  obtain ⟨fs1, recs, path, h⟩ := simple_write s p inv hv; exact step_simple s _ inv hs hc fs1 recs path h
+
+theorem step_unlink (s : Sys) (p : P) (inv : InvRec s.fs s.k s.lib) (hs : s.stopped = false) (hc : s.crashed = false)
+    (hv : validOp s.fs (.unlink p) = true) : StepRec s (.unlink p) := by
+  obtain ⟨fs1, recs, path, h⟩ := simple_unlink s p inv hv; exact step_simple s _ inv hs hc fs1 recs path h
+
+theorem step_chmod (s : Sys) (p : P) (inv : InvRec s.fs s.k s.lib) (hs : s.stopped = false) (hc : s.crashed = false)
+    (hv : validOp s.fs (.chmod p) = true) : StepRec s (.chmod p) := by
+  obtain ⟨fs1, recs, path, h⟩ := simple_chmod s p inv hv; exact step_simple s _ inv hs hc fs1 recs path h
 
 end WD.Pipe
